@@ -1,7 +1,68 @@
 -------------------------------- MODULE JC08 --------------------------------
-(* C08 — contract of the recorded events of this property (stub).           *)
-EXTENDS BigNat
+(* C08 — Montgomery-form values stay canonical and track Z/mZ over any      *)
+(* operation history; parameter sets equal their definitions.               *)
+(*                                                                          *)
+(* "step" events form histories: rg is the ghost register file (the value   *)
+(* of each register in Z/mZ, maintained by GhostC08 with the same semantics *)
+(* as tla/MontyApi.tla).  After every step the real object's stored         *)
+(* representative mf and retrieved value rt are logged and must satisfy     *)
+(*   rt = ghost,  mf = ghost * 2^bits mod m,  mf < m.                       *)
+EXTENDS BigNat, Sequences
 
-JudgeC08(e, rg) == FALSE
-GhostC08(e, rg) == rg
+Has8(e, f) == f \in DOMAIN e
+R8(e) == Pow2(e.bits)
+
+Half8(g, m) == IF Bit(g, 0) = 0 THEN Shr(g, 1) ELSE Shr(Add(g, m), 1)     \* the x with 2x = g (m odd)
+
+Eval8(e, rg) ==
+  LET m == e.m
+      A == rg[e.a]
+      B == rg[e.b]
+  IN CASE e.sop = "new"    -> Mod(e.val, m)
+       [] e.sop = "zero"   -> Zero
+       [] e.sop = "one"    -> Mod(One, m)
+       [] e.sop = "neg"    -> Mod(Sub(m, A), m)
+       [] e.sop = "double" -> Mod(Add(A, A), m)
+       [] e.sop \in {"square", "squareobj"} -> Mod(Mul(A, A), m)
+       [] e.sop = "halve"  -> Mod(Half8(A, m), m)
+       [] e.sop = "add"    -> Mod(Add(A, B), m)
+       [] e.sop = "sub"    -> Mod(Sub(Add(A, m), B), m)
+       [] e.sop \in {"mul", "mulobj"} -> Mod(Mul(A, B), m)
+       [] e.sop = "select" -> IF e.c = 1 THEN B ELSE A
+
+Base8(e, rg) == IF Has8(e, "reset") THEN <<>> ELSE rg
+GhostC08(e, rg) == IF e.op = "step" THEN Append(rg, Eval8(e, rg)) ELSE rg    \* rg already reset by ApiTrace
+
+ToMonty8(g, e) == Mod(Mul(g, R8(e)), e.m)
+
+JudgeStep8(e, rg0) ==
+  LET rg == Base8(e, rg0)
+      g  == Eval8(e, rg)
+  IN /\ e.k = "ok"
+     /\ e.dst = Len(rg) + 1
+     /\ e.rt = g                              \* retrieve tracks Z/mZ
+     /\ e.mf = ToMonty8(g, e)                 \* the stored form is THE canonical representative
+     /\ Lt(e.mf, e.m)                         \* canonical: < m
+
+(* parameter sets: R mod m, R^2 mod m, R^3 mod m, -m^-1 mod 2^64, min(lz, 63) *)
+JudgeParams8(e) ==
+  LET m == e.m  R == R8(e)
+      inv == ModInv(Mod2k(m, 64), Pow2(64))
+      lz == e.bits - BitLen(m)
+  IN /\ e.k = "ok"
+     /\ e.pm = m
+     /\ e.one = Mod(R, m)
+     /\ e.r2 = Mod(Mul(R, R), m)
+     /\ e.r3 = Mod(Mul(Mul(R, R), R), m)
+     /\ inv[1] /\ e.ninv = Mod2k(Sub(Pow2(64), inv[2]), 64)
+     /\ e.lz = FromInt(IF lz < 63 THEN lz ELSE 63)
+
+(* conversions keep representative and value *)
+JudgeConv8(e) == e.k = "ok" /\ e.mf = e.mf0 /\ e.rt = e.rt0
+
+JudgeC08(e, rg) ==
+  CASE e.op = "step"   -> JudgeStep8(e, rg)
+    [] e.op = "params" -> JudgeParams8(e)
+    [] e.op = "conv"   -> JudgeConv8(e)
+    [] OTHER -> FALSE
 =============================================================================
